@@ -72,7 +72,7 @@ CHECKS = {
                 parts=[
         dict(prop="C13", harness="schema_pbt", quick=dict(count="enum", workers=8), thorough=dict(count="enum", workers=16),
              essential=["supported-triple", "supported-triple-in-other-layout", "unsupported-neighbour", "unsupported-triple", "outlier",
-                        "presence-matrix", "variant-marker", "3.0.0"]),
+                        "presence-matrix", "variant-marker", "3.0.0", "stray-entries"]),
     ]),
     "C17": dict(level="exploration", parts=[
         dict(prop="C17", harness="schema_pbt", quick=dict(count=3200, workers=8), thorough=dict(count=120000, workers=16),
@@ -221,7 +221,7 @@ RULES = {
            "pairs that have a reference (17 of 18 schemas); distinct = pairs.",
     "C13": "Enumerated: stored version triples major 0..4 x minor 0..25 x patch 0..4 (650, containing all 18 supported triples and all their "
            "neighbours) x both directory layouts, 20 outlier triples (negative, 2^31-1, values that alias supported numbers modulo 256/65536) "
-           "x both layouts, the presence matrix of m.db / Database2/m.db / missing directory, and both 1.18.0 variants with and without data. "
+           "x both layouts, the presence matrix of m.db / Database2/m.db / missing directory, six stray-entry cases (an empty or non-database Database2 directory next to a legacy library, a stray p.db next to a Database2 library, ...), and both 1.18.0 variants with and without data. "
            "A library of the nearest supported schema is created by the library, closed, and the harness's own connection rewrites the "
            "Information version columns (both files for 1.x). Oracle = a literal decision table of the 18 supported triples: supported triple "
            "in its own layout loads as exactly that schema (right 1.18.0 variant); any other triple -> unsupported_database; no database or "
